@@ -637,48 +637,37 @@ func (s *ppSim) hrefToPath(h string) string {
 	return slashClean(h)
 }
 
-// ppValueClass recognises one specific way a returned value can differ: the
-// child elements that were sent in no namespace come back in the property's
-// own namespace (they were captured by the xmlns="..." default declaration the
-// response puts on the property element).
+// ppValueClass recognises one specific way a returned value can differ: child
+// elements that were sent in no namespace (xmlns="") come back in a namespace
+// (captured by an enclosing default namespace declaration).
 func ppValueClass(n xml.Name, got, want string) string {
-	if strings.Contains(want, "<{}") && ppCapture(want, n.Space) == got {
+	if strings.Contains(want, "<{}") && ppOnlyUnqualifiedMoved(got, want) {
 		return ":unqualified_child_captured"
 	}
 	return ""
 }
 
-// ppCapture rewrites a canonical value the way an xmlns="<ns>" declaration on
-// the enclosing property element changes it: elements in no namespace that are
-// not below an element with a namespace of its own move into ns.
-func ppCapture(canon, ns string) string {
-	var b strings.Builder
-	var stack []bool // per open element: are unqualified children captured?
-	capture := true
-	for i := 0; i < len(canon); {
-		switch {
-		case strings.HasPrefix(canon[i:], "</>"):
-			capture = stack[len(stack)-1]
-			stack = stack[:len(stack)-1]
-			b.WriteString("</>")
-			i += 3
-		case strings.HasPrefix(canon[i:], "<{"):
-			j := i + 2 + strings.IndexByte(canon[i+2:], '}')
-			space := canon[i+2 : j]
-			stack = append(stack, capture)
-			if space == "" && capture {
-				b.WriteString("<{" + ns + "}")
-			} else {
-				b.WriteString(canon[i : j+1])
-				capture = capture && space == ""
+// ppOnlyUnqualifiedMoved: got equals want except that some elements that were
+// sent in no namespace came back in some namespace.
+func ppOnlyUnqualifiedMoved(got, want string) bool {
+	i, j := 0, 0
+	for i < len(want) && j < len(got) {
+		if strings.HasPrefix(want[i:], "<{}") && strings.HasPrefix(got[j:], "<{") {
+			k := strings.IndexByte(got[j:], '}')
+			if k < 0 {
+				return false
 			}
-			i = j + 1
-		default:
-			b.WriteByte(canon[i])
-			i++
+			i += 3
+			j += k + 1
+			continue
 		}
+		if want[i] != got[j] {
+			return false
+		}
+		i++
+		j++
 	}
-	return b.String()
+	return i == len(want) && j == len(got)
 }
 
 func ppIsLiveName(n xml.Name) bool { _, ok := liveProps[n]; return ok }
